@@ -679,8 +679,12 @@ func runOne20(c *c20Case) (ds []hx.Discrepancy, trace []string, fanout []int) {
 	if deadlock {
 		return []hx.Discrepancy{{Kind: "deadlock", Detail: "a worker sits in a lock wait and neither reaches its next yield point nor returns\n" + describe20(c, trace)}}, trace, fanout
 	}
-	for _, id := range ids20 {
-		w.do(-2, Op20{Kind: "pub", ID: id})
+	// (the probe publishes run on a goroutine of their own: a lock that one of the calls above kept
+	// shows as a probe parked for good)
+	probed := make(chan struct{})
+	go c20Probe(w, probed)
+	if stuck := hx.AwaitOrStuck(probed, "conc.c20Probe"); stuck != "" {
+		return []hx.Discrepancy{{Kind: "deadlock", Detail: "a publish after all the calls had returned never returns (a lock was kept): " + hx.Trunc(stuck, 1500) + "\n" + describe20(c, trace)}}, trace, fanout
 	}
 	for _, p := range checkLogs(w, c.Programs, c.Pre) {
 		ds = append(ds, hx.Discrepancy{Kind: "registry", Detail: p + "\n" + describe20(c, trace)})
@@ -926,5 +930,12 @@ func c20StressWorker(w *world20, i int, program []Op20, start chan struct{}, wg 
 	<-start
 	for _, op := range program {
 		w.do(i, op)
+	}
+}
+
+func c20Probe(w *world20, done chan struct{}) {
+	defer close(done)
+	for _, id := range ids20 {
+		w.do(-2, Op20{Kind: "pub", ID: id})
 	}
 }
